@@ -14,6 +14,16 @@ import (
 // also hold keys with empty values (zero checksum by format design), for which nothing is required.
 func H_C09_DamagedData() { vDamagedData(false) }
 
+// H_C09_Gzip: tables with gzip data compression (quick tier: records swapped or the file cut; the thorough tier of
+// H_C09_DamagedData has every compression type with every kind of damage).
+func H_C09_Gzip() {
+	vGzipOnly = true
+	defer func() { vGzipOnly = false }()
+	vDamagedData(false)
+}
+
+var vGzipOnly bool
+
 // H_C09_Loaders: the same with the other index loaders (skip list, map, disk), on a smaller table shape.
 func H_C09_Loaders() { vDamagedData(true) }
 
@@ -25,6 +35,9 @@ func vDamagedData(otherLoaders bool) {
 	n := vrt.Range("n", 1, 2)
 	maxLen := 2
 	li := 0
+	if vGzipOnly {
+		n, maxLen = 2, 1
+	}
 	if otherLoaders {
 		n, maxLen = 2, 1
 		li = 1 + vrt.Choose("loader", 3)
@@ -52,11 +65,18 @@ func vDamagedData(otherLoaders bool) {
 	if vrt.Thorough() {
 		dataComp = vComps[vrt.Choose("datacomp2", 4)]
 	}
+	if vGzipOnly {
+		dataComp = recordio.CompressionTypeGZIP
+	}
 	vWriteTable(dir, keys, vals, dataComp, recordio.CompressionTypeNone, 64)
 
 	dp := fs.Path("t/" + DataFileName)
 	data := fs.ReadFile(dp)
-	switch vrt.Choose("damage", 3) {
+	dmgKind := vrt.Choose("damage", 3)
+	if vGzipOnly {
+		vrt.Assume(dmgKind != 0)
+	}
+	switch dmgKind {
 	case 0:
 		pos := vrt.Range("pos", 0, len(data)-1)
 		nb := vrt.Byte("newbyte")
